@@ -587,6 +587,12 @@ func genOptions(r *rng, es [][]string, gc genCfg) spec.Options {
 	if o.P4 == "bk" && r.chance(70) {
 		o.BK = iptr(pick(r, 0, 1, 2, 3, -1, 4))
 	}
+	if o.P4 == "ns" && len(es)+nodeCount(es) >= 45 {
+		// the option's documentation says it "might be time-intensive for graphs above a few dozen nodes" (every pivot
+		// recomputes all cut values: ~thoroughness*|V|*|E|^2): slowness there is documented, not a finding, so the
+		// time budget is not applied to it - larger graphs use the other positioners
+		o.P4 = pick(r, "", "sinkcoloring", "valign", "packright", "bk")
+	}
 	o.P5 = pick(r, "", "polyline", "straight", "ortho", "splines", "splines", "noop")
 	integral := o.P4 == "ns" && r.chance(85)
 	dim := func() float64 {
